@@ -739,6 +739,7 @@ func (m *Machine) WhenQueue(tick Result) <-chan struct{} {
 	if m.disposed.Load() {
 		return m.subs.Closed
 	}
+	verifhook.Point("sub.checked")
 
 	// locks
 	m.queueMx.Lock()
